@@ -241,6 +241,11 @@ class Mod(object):
         self.add('{}class {}(object):'.format(ind, name))
         self.emit_docstring(ind + '    ', name)
         self.add('{}    attr = 1'.format(ind))
+        if getattr(self, 'helper', False) and D.chance(1, 3):
+            self.add('{}    ext = staticmethod(imported_fn)'.format(ind))
+            self.add('{}    ext2 = imported_fn'.format(ind))
+            self.mustnot += [name + '.ext', name + '.ext2']
+            self.features.add('class_attr_imported_callable')
         kinds = set()
         for j in range(D.int(1, 5)):
             mk = D.choice(['plain', 'static', 'cls', 'prop', 'async', 'wrapped', 'nestedcls', 'dunder', 'underscore', 'cond', 'propdel'])
@@ -298,8 +303,38 @@ class Mod(object):
         self.add('')
 
 
-def build_module(D, importable=True, fail_kinds=(None,), max_items=7, allow_async=True):
+HELPER = 'VPHELPERMOD'      # placeholder for the name of a sibling module (replaced when the case is written to disk)
+
+HELPER_SOURCE = '''
+def imported_fn(x=1):
+    """
+    Example:
+        >>> print('imported_fn must not be collected')
+    """
+    return x
+
+
+class ImportedCls(object):
+    """
+    Example:
+        >>> print('ImportedCls must not be collected')
+    """
+    def meth(self):
+        """
+        >>> print('ImportedCls.meth must not be collected')
+        """
+
+    @staticmethod
+    def smeth():
+        """
+        >>> print('ImportedCls.smeth must not be collected')
+        """
+'''
+
+
+def build_module(D, importable=True, fail_kinds=(None,), max_items=7, allow_async=True, helper=False):
     m = Mod(D, importable, fail_kinds, allow_async)
+    m.helper = helper
     if D.bool():
         m.emit_docstring('', '__doc__', layouts=['google', 'freeform', 'prose', 'mixed'])
         m.features.add('module_docstring')
@@ -307,6 +342,12 @@ def build_module(D, importable=True, fail_kinds=(None,), max_items=7, allow_asyn
     m.add('import os')
     m.add('from os.path import join')
     m.add('from collections import OrderedDict')
+    if helper:
+        m.add('import {}'.format(HELPER))
+        m.add('from {} import imported_fn, ImportedCls'.format(HELPER))
+        m.add('from {} import imported_fn as renamed_fn'.format(HELPER))
+        m.mustnot += ['imported_fn', 'ImportedCls', 'ImportedCls.meth', 'ImportedCls.smeth', 'renamed_fn']
+        m.features.add('imported_names_with_doctests')
     m.add('')
     m.add('')
     m.add('def deco(fn):')
